@@ -44,6 +44,8 @@ func newVectorizedTable(a vectorAccumulator) *vectorTable {
 }
 
 func (t *vectorTable) aggregate(_ float64, vector model.StepVector) {
+	// The output vector belongs to this step even if it is empty.
+	t.timestamp = vector.T
 	if len(vector.SampleIDs) == 0 {
 		t.hasValue = false
 		return
